@@ -893,10 +893,24 @@ def _tagged(prefix: str, fn):
     return run
 
 
+def label_stack_cases() -> list:
+    """a label the 20-bit field cannot hold at every position of a stack of two and three, through every entry point
+    (a range check applied to one position of the stack only passes the single-label and the generated one-in-thirty cases)"""
+    out = []
+    mutation = {'kind': 'over-bound', 'field': 'label', 'what': 'value-in-stack'}
+    for form, entries, head in (('route', ('parse_route_text', 'api', 'config-flat', 'config-block'), 'route 10.18.0.0/24'), ('family', ('partial', 'api', 'config-flat'), 'ipv4 nlri-mpls 10.18.0.0/24')):
+        for entry in entries:
+            for bad in (2**20, 2**20 + 5, 2**28):
+                for stack in ([bad, 16], [16, bad], [bad, 16, 17], [16, bad, 17], [16, 17, bad]):
+                    cl = [['prefix', head], ['label', 'label [ ' + ' '.join(map(str, stack)) + ' ]'], ['next-hop', 'next-hop 10.0.0.1']]
+                    out.append(gen.route_case(cl, form=form, entry=entry, afi=1, safi=4, fits=False, mutation=dict(mutation)))
+    return out
+
+
 def fixed_routes() -> list:
     from vlib import c18_findings
 
-    return c18_findings.route_cases()
+    return c18_findings.route_cases() + label_stack_cases()
 
 
 def fixed_vpls() -> list:
